@@ -166,3 +166,86 @@ PROPS["C10"] = {
     "assumptions": ["rand_pcg::Pcg64Mcg::seed_from_u64 / next_u64 are the reference for `same stream` (executed symbolically, not specified)"],
     "not_decided": [],
 }
+
+EXE = "shuttle-engine/src/runtime/execution.rs"
+EXE_OVERLAY = TASK_OVERLAY + ["shuttle-engine/src/runtime/execution.rs.append.rs", "shuttle-engine/src/runtime/execution.rs.rules",
+                              "shuttle-engine/src/runtime/failure.rs.append.rs"]
+A_TLS = "A-tls: the three lazily initialised thread_local!s of execution.rs are replaced by static twins under cfg(kani)"
+A_HEAP = "ExecutionState.tasks is built with SmallVec::from_vec (heap mode); the inline [Task;16] mode is not exercised"
+EXEC = {
+    "schedule": Kb("C08.exec.schedule", "c08_exec_schedule_2live",
+                   "for every combination of task states/detached flags, current task, yield flag: next_task' == Finished <=> "
+                   "(no Runnable task) or (no unfinished attached task and all Runnable detached), scheduler not called then; "
+                   "otherwise scheduler called exactly once with the ascending ids of Runnable+spuriously-wakeable tasks, "
+                   "current == current_task.id(), is_yielding == old(has_yielded), flag cleared; None => Stopped; "
+                   "chosen blocked task unblocked, all other tasks unchanged",
+                   [EXE + "::ExecutionState::schedule"], "2 unfinished tasks, every combination of their states", heavy=True, timeout_s=1500),
+    "schedule3": Kb("C08.exec.schedule_3live", "c08_exec_schedule_3live", "same contract as C08.exec.schedule",
+                    [EXE + "::ExecutionState::schedule"], "3 unfinished tasks", tier="thorough", heavy=True, timeout_s=5400),
+    "schedule_fin": Kb("C08.exec.schedule_with_finished", "c08_exec_schedule_with_finished", "same contract as C08.exec.schedule",
+                       [EXE + "::ExecutionState::schedule"], "3 tasks, task 0 finished (non-contiguous live ids)", tier="thorough", heavy=True, timeout_s=3600),
+    "once": K("C08.exec.schedule_once", "c08_exec_schedule_once",
+              "next_task != None ==> schedule() is a no-op (scheduler consulted at most once per decision)",
+              [EXE + "::ExecutionState::schedule"], heavy=True, timeout_s=1800),
+    "bound": K("C13.exec.step_bound", "c13_exec_step_bound",
+               "steps = len(schedule) - steps_reset_at; FailAfter(n): steps >= n <=> Err(StepBoundExceeded), no scheduler call; "
+               "ContinueAfter(n): steps >= n <=> Ok and next_task' == Stopped; otherwise the decision proceeds",
+               [EXE + "::ExecutionState::schedule", EXE + "::ExecutionState::is_step_bound_exceeded"], heavy=True, timeout_s=1800),
+    "silent": K("C13.exec.step_error_persist", "c13_exec_step_error_is_silent_only_for_continue_after",
+                "StepError::persist_failure skips exactly StepBoundExceeded under ContinueAfter", [EXE + "::StepError::persist_failure"]),
+    "advance": K("C01.exec.advance_records", "c01_exec_advance_records",
+                 "requires next_task != None; ensures current_task' == old(next_task), next_task' == None, recorded schedule' == "
+                 "old ++ [Task(t)] iff old(next_task) == Some(t) (also when t is the task already running)",
+                 [EXE + "::ExecutionState::advance_to_next_task"]),
+    "u64": K("C01.exec.next_u64", "c01_exec_next_u64",
+             "schedule' == old ++ [Random], appended before the scheduler is asked; result == scheduler.next_u64(), called once",
+             [EXE + "::ExecutionState::next_u64"]),
+    "fresh": K("C14.exec.new_is_fresh", "c14_exec_new_is_fresh",
+               "ExecutionState::new: no tasks, empty live set, zero counters, no current/next task, empty storage; "
+               "CurrentSchedule::init replaces the recorded schedule", [EXE + "::ExecutionState::new", EXE + "::CurrentSchedule::init"]),
+    "live": Kb("C03.exec.live_tasks", "c03_exec_live_tasks",
+               "add_task/finish_task preserve: live_tasks == ascending ids of unfinished tasks; new id == tasks.len()",
+               [EXE + "::ExecutionState::add_task", EXE + "::ExecutionState::finish_task"], "<= 3 tasks", tier="thorough", heavy=True, timeout_s=3600),
+    "trunc": Kb("C02.exec.exit_truncates", "c02_exec_exit_truncates",
+                "exit_current_truncates_execution() <=> current is task 0, or current is attached and the only unfinished attached "
+                "task while an unfinished detached task exists", [EXE + "::ExecutionState::exit_current_truncates_execution"], "<= 3 tasks"),
+    "yield": K("C08.exec.request_yield", "c08_exec_request_yield", "request_yield sets has_yielded and nothing else",
+               [EXE + "::ExecutionState::request_yield"]),
+    "persist": K("C12.failure.persist_independent_of_history", "c12_failure_persist_independent_of_history",
+                 "for every value an earlier run can have left in SCHEDULE_PERSISTED_AT: persistence None => nothing emitted; "
+                 "Print => current schedule emitted exactly once per failure", ["shuttle-engine/src/runtime/failure.rs::persist_failure"]),
+}
+for k in ("schedule", "schedule3", "schedule_fin", "live"):
+    PROPS["C03"]["kani"].append(EXEC[k])
+PROPS["C03"]["overlay_files"] = EXE_OVERLAY
+PROPS["C03"]["assumptions"] += [A_TLS, A_HEAP]
+PROPS["C08"] = {
+    "scope": "schedule() contract (Kb <= 3 tasks), at-most-once and request_yield (K)",
+    "kani": [EXEC["schedule"], EXEC["schedule3"], EXEC["schedule_fin"], EXEC["once"], EXEC["yield"]],
+    "overlay_files": EXE_OVERLAY, "assumptions": [A_BT, A_DUMMY, A_TLS, A_HEAP], "not_decided": [],
+}
+PROPS["C13"] = {
+    "scope": "step-bound arithmetic and its three outcomes complete over all bounds (K)",
+    "kani": [EXEC["bound"], EXEC["silent"], EXEC["advance"], EXEC["u64"]],
+    "overlay_files": EXE_OVERLAY, "assumptions": [A_DUMMY, A_TLS, A_HEAP], "not_decided": [],
+}
+PROPS["C01"] = {
+    "scope": "recording of decisions and draws (K)",
+    "kani": [EXEC["advance"], EXEC["u64"], DATA["next"]],
+    "overlay_files": EXE_OVERLAY + DATA_OVERLAY, "assumptions": [A_DUMMY, A_TLS, A_HEAP], "not_decided": [],
+}
+PROPS["C14"] = {
+    "scope": "fresh initial state (K)",
+    "kani": [EXEC["fresh"]],
+    "overlay_files": EXE_OVERLAY, "assumptions": [A_TLS], "not_decided": [],
+}
+PROPS["C02"] = {
+    "scope": "exit-truncation predicate (Kb)",
+    "kani": [EXEC["trunc"], EXEC["once"]],
+    "overlay_files": EXE_OVERLAY, "assumptions": [A_DUMMY, A_TLS, A_HEAP], "not_decided": [],
+}
+PROPS["C12"] = {
+    "scope": "persist_failure emission independent of earlier runs (K)",
+    "kani": [EXEC["silent"]],
+    "overlay_files": EXE_OVERLAY, "assumptions": ["stub: serialize_schedule replaced by a call counter (bitvec/hex are beyond CBMC)"], "not_decided": [],
+}
